@@ -20,10 +20,10 @@ TRANSLATED = {
     'C08': '_estimate_waiting_times, _estimate_transition_times (msm), _get_cummat, _estimate_times (list and histogram form), StateTraj.state_to_idx',
     'C13': '_intersect, _intersect_array, _compare_trajs_symmetric, _compare_trajs_directed, _compare_discretization (both methods)',
     'C20': 'runningmean', 'C16': 'open_limits', 'C15': 'unique, shift_data, rename_by_index, rename_by_population (list-of-arrays form)',
-    'C02': 'StateTraj.__init__ and the relabelling utilities it uses', 'C17': 'StateTraj.__init__, rename_by_index, shift_data',
+    'C02': 'StateTraj.__init__, the StateTraj accessors, LumpedStateTraj.__init__ and its accessors, the relabelling utilities they use', 'C17': 'StateTraj.__init__, rename_by_index, shift_data',
     'C14': 'is_quadratic, is_transition_matrix, is_ergodic, is_fuzzy_ergodic, ergodic_mask',
     'C04': 'equilibrium_population (LAPACK eigen-solver as an oracle with the contract v M = v, v != 0), is_ergodic, ergodic_mask, row_normalize_matrix', 'C03': 'LumpedStateTraj._estimate_markov_model (Hummer-Szabo projection), row_normalize_matrix, is_ergodic',
-    'C09': '_calc_times', 'C19': '_split_array, open_limits',
+    'C09': '_calc_times, _chapman_kolmogorov_test, _chapman_kolmogorov_test_md (estimators and the rounded geometric grid as oracles)', 'C19': '_split_array, open_limits',
 }
 
 
